@@ -362,13 +362,17 @@ def r4(ctx):
 def run(ctx):
     rep = ctx.rep
     r1(ctx); r2(ctx); r4(ctx); r3(ctx)
+    # R5: the accepting lists REJECT walks (yy_acclist of the REJECT builds of the language probes) hold, for every reachable
+    # state, exactly the rules that match there, once each, in rule order - read from the emitted tables, over all inputs
+    import tbl
+    tbl.rule_language(ctx, 'C07.R5', what='REJECT accepting lists (every matching rule once, in rule order)', rej_only=True)
     rep.floor('C07.R1', 2, 'reject with fulltbl, reject with fullspd')
     rep.floor('C07.R2', 2, 'copy in snstods + intcmp')
     rep.floor('C07.R3', 15, 'one per REJECT variant compiled to IR (19 today, all five back ends)')
     rep.floor('C07.R4', 2, 'REJECT and yyreject() detection rules of scan.l')
+    rep.floor('C07.R5', 10, 'REJECT builds of the language probes')
     rep.undecided += ['the order in which a generated scanner visits (rule, length) alternatives at run time, yytext/yyleng per visit',
                       'find_rule / yy_state_buf walk in the skeletons (state stack contents, yy_lp cursor)',
-                      'gentabs(): layout of yy_acclist from the sorted accepting sets',
                       'REJECT inside %{ %} blocks or reached through user macros (detection is lexical)']
     rep.assumptions += ['clang -O0 IR of flex / of the instantiated skeletons is a faithful rendering of the sources',
                         'indirect calls in readin() are treated as possible writers of reject/ctrl (none today)',
